@@ -46,7 +46,17 @@ func TestHunt(t *testing.T) {
 					msg := pu.DetBytes(uint64(i)*31+uint64(m)+5, pu.MsgLens[(i+m)%len(pu.MsgLens)])
 					_, trace := k.Sign(msg, "")
 					ti := pu.Classify(trace)
-					for _, e := range ti.Events {
+					events := ti.Events
+					if os.Getenv("VERIF_HUNT_LONG") != "" {
+						events = nil // hunting long rejection runs only
+						if ti.Attempts >= 33 {
+							events = []string{"long-run-33plus"}
+						}
+						if ti.Attempts >= 45 {
+							events = []string{"long-run-45plus"}
+						}
+					}
+					for _, e := range events {
 						mu.Lock()
 						if found[e] < per {
 							found[e]++
